@@ -221,6 +221,29 @@ fn reported_covered(v: &Value, o: &ResponseAuthenticationOutcome) -> bool {
     true
 }
 
+/// `issuerSigned.nameSpaces` of the first document of type mDL (an absent member = the empty map)
+pub fn mdl_namespaces(v: &Value) -> Option<Value> {
+    let d = mget(v, "documents").and_then(|d| d.as_array()).and_then(|a| a.iter().find(|x| mget(x, "docType").and_then(|s| s.as_text()) == Some(MDL)))?;
+    Some(mget(d, "issuerSigned").and_then(|i| mget(i, "nameSpaces")).cloned().unwrap_or(Value::Map(vec![])))
+}
+
+/// canonical text of a reported JSON value (same form as `Report.renderJ` in the Lean model)
+pub fn render_json(j: &serde_json::Value) -> String {
+    use serde_json::Value as J;
+    match j {
+        J::String(s) => format!("s{}", hex::encode(s.as_bytes())),
+        J::Number(n) => format!("n{n}"),
+        J::Bool(b) => format!("b{}", if *b { "t" } else { "f" }),
+        J::Array(a) => format!("[{}]", a.iter().map(render_json).collect::<Vec<_>>().join(",")),
+        J::Object(m) => format!("{{{}}}", m.iter().map(|(k, v)| format!("{}:{}", hex::encode(k.as_bytes()), render_json(v))).collect::<Vec<_>>().join(",")),
+        J::Null => "null".into(),
+    }
+}
+pub fn render_report(r: &std::collections::BTreeMap<String, serde_json::Value>) -> String {
+    let s = r.iter().map(|(ns, v)| format!("{}={}", hex::encode(ns.as_bytes()), render_json(v))).collect::<Vec<_>>().join(";");
+    if s.is_empty() { "-".into() } else { s }
+}
+
 /// deliver `v` (to a fresh copy of the reader, and to a copy that has just handled the authentic
 /// response), compare with the model, evaluate the requested predicates
 pub fn eval(ctx: &mut Ctx, tag: &str, live: &Live, registry: &TrustAnchorRegistry, v: &Value, specs: &[&str], transcript_for_facts: &Value) {
@@ -232,6 +255,11 @@ pub fn eval(ctx: &mut Ctx, tag: &str, live: &Live, registry: &TrustAnchorRegistr
         let tag2 = if after_genuine { format!("{tag}:after-genuine") } else { tag.to_string() };
         let case = serde_json::json!({"alteration": tag2, "facts": f, "real": real, "msg_hex": format!("{}{}", hex::encode(to_bytes(v)), after_genuine)});
         ctx.emit.line("corr", &tag2, format!("resp.outcome {f}"), real.clone(), case.clone());
+        // what the reader REPORTS, against the model of parse_namespaces / parse_response (Model/Report.lean): whenever the
+        // pipeline got as far as parsing (decrypted, decoded, an mDL document with a readable x5chain)
+        if let Ok(o) = &r { if ["decrypts=t", "decodes=t", "docs=t", "mdl=t", "x5p=t", "x5ok=t"].iter().all(|k| f.contains(k)) {
+            if let Some(nsv) = mdl_namespaces(v) { ctx.emit.line("corr", &format!("report:{tag2}"), format!("report.ns {}", hex::encode(to_bytes(&nsv))), render_report(&o.response), case.clone()); }
+        } }
         if real == "panic" { continue; }
         for s in specs {
             let op = match *s { "c03" => format!("spec.c03 {issuer} {} {f}", if errs_empty { "t" } else { "f" }), "c04" => format!("spec.c04 {issuer} {f}"), _ => format!("spec.c05 {device} {f}") };
@@ -312,6 +340,27 @@ pub fn run_c03(ctx: &mut Ctx) {
     }
 }
 
+/// a CBOR value of any shape (bounded depth)
+pub fn exotic_value(rng: &mut rand_chacha::ChaCha8Rng, depth: u32) -> Value {
+    let big = |i: i128| Value::Integer(ciborium::value::Integer::try_from(i).unwrap());
+    let k = if depth >= 3 { rng.gen_range(0..9) } else { rng.gen_range(0..13) };
+    match k {
+        0 => Value::Text(["", "a", "Smith", "\u{e9}\u{20ac}\u{1f600}", "q\"uote\\"][rng.gen_range(0..5)].to_string()),
+        1 => Value::Tag([0u64, 1004, 24, 99999][rng.gen_range(0..4)], Box::new(Value::Text("2020-01-01".into()))),
+        2 => Value::Bytes((0..rng.gen_range(0..5)).map(|_| rng.gen()).collect()),
+        3 => Value::Bool(rng.gen()),
+        4 => big([0i128, 1, 23, 24, -1, -24, -25, 255, 256, i64::MAX as i128, i64::MIN as i128, u64::MAX as i128, i64::MIN as i128 - 1, -(u64::MAX as i128) - 1][rng.gen_range(0..14)]),
+        5 => Value::Float([0.0, 1.5, -2.25, f64::NAN, f64::INFINITY][rng.gen_range(0..5)]),
+        6 => Value::Null,
+        7 => Value::Tag(1004, Box::new(Value::Integer(5.into()))),
+        8 => Value::Tag(0, Box::new(Value::Tag(0, Box::new(Value::Text("t".into()))))),
+        9 | 10 => Value::Array((0..rng.gen_range(0..4)).map(|_| exotic_value(rng, depth + 1)).collect()),
+        _ => Value::Map((0..rng.gen_range(0..5)).map(|_| {
+            let key = match rng.gen_range(0..6) { 0 => Value::Integer(rng.gen_range(0..3).into()), 1 => Value::Bytes(vec![1]), _ => Value::Text(["k", "a", "zz", "k", "\u{e9}"][rng.gen_range(0..5)].to_string()) };
+            (key, exotic_value(rng, depth + 1)) }).collect()),
+    }
+}
+
 pub fn run_c04(ctx: &mut Ctx) {
     let pki = Pki::new(&mut ctx.rng);
     let mut rng: rand_chacha::ChaCha8Rng = rand::SeedableRng::seed_from_u64(ctx.rng.gen());
@@ -347,6 +396,22 @@ pub fn run_c04(ctx: &mut Ctx) {
           if let Some(x) = mget_mut(mget_mut(doc0_mut(&mut v).unwrap(), "issuerSigned").unwrap(), "issuerAuth") { *x = ia; }
           go(ctx, "mso-of-other-doctype", &mut v, true); }
         { let mut v = base.clone(); if let Some(items) = items_mut(&mut v, NS) { items.swap(0, n_items - 1); } go(ctx, "items-reordered", &mut v, false); }
+        // element values of every CBOR shape (what is reported for them is the model's business, Model/Report.lean): nested
+        // arrays and maps, non-text keys, repeated keys, tags around text and around other things, byte strings, integers at the
+        // edges of the CBOR range, floats, null, undefined; repeated identifiers; the same in the AAMVA namespace
+        for round in 0..(if ctx.thorough { 12 } else { 4 }) {
+            let mut v = base.clone();
+            let mk_item = |rng: &mut rand_chacha::ChaCha8Rng, id: String, val: Value| Value::Tag(24, Box::new(Value::Bytes(to_bytes(&Value::Map(vec![(Value::Text("digestID".into()), Value::Integer(rng.gen_range(0..1000).into())),
+                (Value::Text("random".into()), Value::Bytes((0..16).map(|_| rng.gen()).collect())), (Value::Text("elementIdentifier".into()), Value::Text(id)), (Value::Text("elementValue".into()), val)])))));
+            let mut extra = vec![]; let mut extra2 = vec![];
+            for k in 0..rng.gen_range(3..9) { let id = ["family_name", "x", "age_over_18", "\u{e9}l\u{e9}ment", "", "z9"][rng.gen_range(0..6)].to_string(); let val = exotic_value(&mut rng, 0);
+                if k % 3 == 2 { extra2.push(mk_item(&mut rng, id, val)); } else { extra.push(mk_item(&mut rng, id, val)); } }
+            if let Some(items) = items_mut(&mut v, NS) { if round % 2 == 0 { items.extend(extra); } else { let keep = items.clone(); *items = extra; items.extend(keep); } }
+            if !extra2.is_empty() { if let Some(Value::Map(nss)) = mget_mut(mget_mut(doc0_mut(&mut v).unwrap(), "issuerSigned").unwrap(), "nameSpaces") {
+                nss.push((Value::Text("org.iso.18013.5.1.aamva".into()), Value::Array(extra2.clone())));
+                if round % 3 == 0 { nss.push((Value::Text("org.example.other".into()), Value::Array(extra2))); } } }
+            go(ctx, "exotic-values", &mut v, true);
+        }
         // two mDL documents: the authentic one stripped of its items, followed by a forged one carrying items
         { let mut v = base.clone();
           let mut forged = doc0(&v).cloned().unwrap();
